@@ -300,7 +300,7 @@ theorem generated_calls_unchanged_deref :
 
 theorem generated_calls_unchanged_deref_mut :
     Generated.paths_trait_handlers_deref_mut =
-      ["::core::ops::DerefMut"] := by
+      ["::core::ops::Deref", "::core::ops::DerefMut"] := by
   decide +kernel
 
 end Educe
